@@ -35,40 +35,52 @@
 
 struct KSI_Integer_st { KSI_uint64_t value; };
 struct KSI_Utf8String_st { int refs; };
-struct KSI_OctetString_st { const unsigned char *data; size_t len; int k; };
-struct KSI_ErrorPdu_st { KSI_Integer *status; KSI_Utf8String *errorMsg; int k; int refs; };
-struct KSI_Config_st { int k; int refs; };
 struct KSI_Header_st { int dummy; };
-struct ad_resp { KSI_Integer *requestId, *status; KSI_Utf8String *errorMsg; int k; int refs; };
-struct KSI_AggregationResp_st { struct ad_resp m; };
-struct KSI_ExtendResp_st { struct ad_resp m; };
-struct ad_pdu { KSI_Header *header; KSI_DataHash *hmac; KSI_ErrorPdu *error; struct ad_resp *response; KSI_Config *confResponse; int k; };
-struct KSI_AggregationPdu_st { struct ad_pdu m; };
-struct KSI_ExtendPdu_st { struct ad_pdu m; };
 struct KSI_AggregationReq_st { int dummy; };
 struct KSI_ExtendReq_st { int dummy; };
-
-/* ---- one queued byte string and everything that may come out of it ---- */
-struct ad_item {
-	unsigned char byte0; struct KSI_OctetString_st os; struct ad_pdu pdu; struct KSI_Header_st hdr; char mac;
-	struct KSI_ErrorPdu_st err; struct KSI_Integer_st err_status; struct KSI_Utf8String_st err_msg;
-	struct ad_resp resp; struct KSI_Integer_st rid, status; struct KSI_Utf8String_st resp_msg;
-	struct KSI_Config_st conf;
-	/* as handed out / parsed */
-	_Bool handed_out, parsed, has_error, has_header, has_hmac, has_resp, has_conf, has_rid, has_status;
-	/* what happened to it */
-	unsigned char extract_calls, parse_calls, verify_calls, os_free, pdu_free, detach_calls;
-	int parse_res, verify_res; const char *verify_key; KSI_CTX *parse_ctx; const unsigned char *parse_raw; size_t parse_len;
-	_Bool verified;                       /* KSI_*Pdu_verify returned OK for the PDU of this item */
-	unsigned char handled;                /* its response was looked at by handleResponse (request id read) */
-	unsigned char vwr_calls; int vwr_res; const void *vwr_req;
-	unsigned char resp_delivered;         /* KSI_*Resp_ref: the response object is stored into a handle */
-	unsigned char conf_delivered;         /* KSI_Config_ref: the configuration is stored into a handle */
-	unsigned char cb_calls;               /* the configuration was given to a call-back */
+/* Every model object carries its own record (counters are fields of the object a stub is handed, never looked up by a
+ * symbolic index: keeps the symbolic execution field-sensitive). k = number of the transport call that delivered it, -1 =
+ * an object the cache held before the call. */
+struct KSI_OctetString_st { const unsigned char *data; size_t len; int k; unsigned char extract_calls, freed; };
+struct KSI_ErrorPdu_st { KSI_Integer *status; KSI_Utf8String *errorMsg; int k; int refs; };
+/* Only the flavour of the job (aggregator, or extender with -DAD_EXT) is modelled: the model objects then have exactly the
+ * types the real code uses for them (no casts between layout-compatible structs: those cost byte-level reasoning). */
+#ifdef AD_EXT
+#define ad_pdu_st KSI_ExtendPdu_st
+#define ad_resp_st KSI_ExtendResp_st
+typedef KSI_ExtendResp ad_resp_t; typedef KSI_ExtendPdu ad_pdu_t; typedef KSI_ExtendReq ad_req_t;
+#else
+#define ad_pdu_st KSI_AggregationPdu_st
+#define ad_resp_st KSI_AggregationResp_st
+typedef KSI_AggregationResp ad_resp_t; typedef KSI_AggregationPdu ad_pdu_t; typedef KSI_AggregationReq ad_req_t;
+#endif
+struct ad_pdu_st {
+	KSI_Header *header; KSI_DataHash *hmac; KSI_ErrorPdu *error; ad_resp_t *response; KSI_Config *confResponse; int k;
+	_Bool had_error, had_header, had_hmac;            /* as parsed */
+	unsigned char verify_calls, freed, detach_calls; int verify_res; const char *verify_key;
+	_Bool verified;                                   /* KSI_*Pdu_verify returned OK for this PDU */
 };
+struct ad_resp_st {
+	KSI_Integer *requestId, *status; KSI_Utf8String *errorMsg; int k; int refs; const ad_pdu_t *pdu;
+	unsigned char handled;                            /* looked at by handleResponse (request id read) */
+	unsigned char vwr_calls; int vwr_res; const void *vwr_req;
+	unsigned char delivered;                          /* KSI_*Resp_ref: stored into a handle */
+};
+struct KSI_Config_st { int k; int refs; const ad_pdu_t *pdu; unsigned char delivered /* KSI_Config_ref: stored into a handle */, cb_calls; };
+
+/* ---- one transport call and everything that may come out of it ---- */
+struct ad_item {
+	unsigned char byte0; struct KSI_OctetString_st os; ad_pdu_t pdu; struct KSI_Header_st hdr; char mac;
+	struct KSI_ErrorPdu_st err; struct KSI_Integer_st err_status; struct KSI_Utf8String_st err_msg;
+	ad_resp_t resp; struct KSI_Integer_st rid, status; struct KSI_Utf8String_st resp_msg;
+	struct KSI_Config_st conf;
+	_Bool handed_out, parsed, has_error, has_header, has_hmac, has_resp, has_conf, has_rid, has_status;
+	unsigned char parse_calls; int parse_res; KSI_CTX *parse_ctx; const unsigned char *parse_raw; size_t parse_len;
+};
+static struct ad_item g_ad_it0, g_ad_it1, g_ad_it2;      /* separate objects */
+#define AD_IT(k) ((k) == 0 ? &g_ad_it0 : (k) == 1 ? &g_ad_it1 : &g_ad_it2)
 struct ad_ghost {
-	struct ad_item it[AD_MAXQ];
-	unsigned get_calls, n_out;            /* transport calls / items handed out */
+	unsigned get_calls, n_out;            /* transport calls / byte strings handed out */
 	unsigned cred_calls;
 	int first_fail;                       /* status of the first environment step that reported a failure (KSI_OK = none) */
 	_Bool err_seen; int last_err;         /* an error PDU was met; index of the last one */
@@ -83,23 +95,24 @@ static struct KSI_Config_st g_ad_oldconf; /* configuration a cached configuratio
 static int ad_fail(int r) { if (r != KSI_OK && g_ad.first_fail == KSI_OK) g_ad.first_fail = r; return r; }
 static int ad_status(void) { return ad_fail(nondet_int()); }
 
-/* AUTHENTIC(k): the statement of C06 for item k */
-static _Bool ad_authentic(int k) {
-	return k >= 0 && k < AD_MAXQ && g_ad.it[k].handed_out && g_ad.it[k].parsed && !g_ad.it[k].has_error && g_ad.it[k].has_header && g_ad.it[k].has_hmac &&
-			g_ad.it[k].verify_calls == 1 && g_ad.it[k].verify_res == KSI_OK && g_ad.it[k].verified && g_ad.it[k].verify_key == g_ad_key;
+/* AUTHENTIC: the statement of C06 for one PDU */
+static _Bool ad_pdu_authentic(const ad_pdu_t *m) {
+	return m != NULL && !m->had_error && m->had_header && m->had_hmac && m->verify_calls == 1 && m->verify_res == KSI_OK && m->verified && m->verify_key == g_ad_key;
 }
+static _Bool ad_authentic(int k) { return k >= 0 && k < AD_MAXQ && AD_IT(k)->handed_out && AD_IT(k)->parsed && AD_IT(k)->parse_calls == 1 && ad_pdu_authentic(&AD_IT(k)->pdu); }
 
 /* ---- transport ---- */
 int ad_getResponse(void *impl, KSI_OctetString **out, size_t *left) {
-	unsigned k = g_ad.get_calls; int r;                 /* item k = what the k-th transport call hands out */
+	unsigned k = g_ad.get_calls; int r; struct ad_item *it;      /* item k = what the k-th transport call hands out */
 	__CPROVER_assert(impl == (void *)&g_ad_impl, "the transport is asked with the client's own transport context");
 	if (g_ad.first_fail != KSI_OK) g_ad.used_after_fail = 1;
 	g_ad.get_calls++;
 	r = ad_status();
 	if (r != KSI_OK) return r;
 	if (k < AD_MAXQ && nondet_bool()) {
-		g_ad.it[k].handed_out = 1; g_ad.it[k].os.data = &g_ad.it[k].byte0; g_ad.it[k].os.len = nondet_size(); g_ad.it[k].os.k = (int)k;
-		*out = &g_ad.it[k].os; g_ad.n_out++;
+		it = AD_IT(k);
+		it->handed_out = 1; it->os.data = &it->byte0; it->os.len = nondet_size(); it->os.k = (int)k;
+		*out = &it->os; g_ad.n_out++;
 	} else *out = NULL;
 	*left = g_ad.get_calls < AD_MAXQ ? nondet_size() : 0;           /* BOUND: the queue is drained after AD_MAXQ calls */
 	return KSI_OK;
@@ -116,20 +129,19 @@ int ad_getCredentials(void *impl, const char **user, const char **pass) {
 }
 int KSI_OctetString_extract(const KSI_OctetString *o, const unsigned char **data, size_t *len) {
 	if (o == NULL) return ad_fail(KSI_INVALID_ARGUMENT);
-	g_ad.it[o->k].extract_calls++;
+	((KSI_OctetString *)o)->extract_calls++;
 	if (nondet_bool()) return ad_fail(KSI_INVALID_ARGUMENT);
 	*data = o->data; *len = o->len; return KSI_OK;
 }
-void KSI_OctetString_free(KSI_OctetString *o) { if (o != NULL) g_ad.it[o->k].os_free++; }
+void KSI_OctetString_free(KSI_OctetString *o) { if (o != NULL) o->freed++; }
 
 /* ---- the PDU ---- */
-static int ad_parse(KSI_CTX *ctx, const unsigned char *raw, size_t len, void **t) {
-	int k = -1, r; struct ad_item *it;
-	/* the bytes are those of the item most recently handed out */
-	if (g_ad.get_calls >= 1 && g_ad.get_calls <= AD_MAXQ && raw == &g_ad.it[g_ad.get_calls - 1].byte0 && g_ad.it[g_ad.get_calls - 1].handed_out) k = (int)g_ad.get_calls - 1;
-	__CPROVER_assert(k >= 0, "the PDU is parsed from the bytes the transport handed out last");
-	if (k < 0) return ad_fail(KSI_INVALID_ARGUMENT);
-	it = &g_ad.it[k];
+static int ad_parse(KSI_CTX *ctx, const unsigned char *raw, size_t len, ad_pdu_t **t) {
+	int k, r; struct ad_item *it;
+	if (g_ad.get_calls < 1 || g_ad.get_calls > AD_MAXQ) { __CPROVER_assert(0, "the PDU is parsed after the transport was asked"); return ad_fail(KSI_INVALID_ARGUMENT); }
+	k = (int)g_ad.get_calls - 1;                    /* the bytes must be those of the item handed out last */
+	it = AD_IT(k);
+	__CPROVER_assert(it->handed_out && raw == &it->byte0, "the PDU is parsed from the bytes the transport handed out last");
 	it->parse_calls++; it->parse_ctx = ctx; it->parse_raw = raw; it->parse_len = len;
 	r = it->parse_res = ad_status();
 	if (r != KSI_OK) return r;
@@ -137,52 +149,54 @@ static int ad_parse(KSI_CTX *ctx, const unsigned char *raw, size_t len, void **t
 	it->has_header = nondet_bool(); it->has_hmac = nondet_bool(); it->has_error = nondet_bool(); it->has_resp = nondet_bool(); it->has_conf = nondet_bool();
 	it->has_rid = nondet_bool(); it->has_status = nondet_bool();
 	it->pdu.k = k; it->pdu.header = it->has_header ? &it->hdr : NULL; it->pdu.hmac = it->has_hmac ? (KSI_DataHash *)&it->mac : NULL;
+	it->pdu.had_error = it->has_error; it->pdu.had_header = it->has_header; it->pdu.had_hmac = it->has_hmac;
 	it->err.k = k; it->err.refs = it->has_error ? 1 : 0; it->err_status.value = nondet_ull(); it->err.status = &it->err_status;   /* status: mandatory in the error PDU template */
 	it->err_msg.refs = 1; it->err.errorMsg = nondet_bool() ? &it->err_msg : NULL;
 	it->pdu.error = it->has_error ? &it->err : NULL;
 	it->rid.value = nondet_ull(); it->status.value = nondet_ull(); it->resp_msg.refs = 1;
-	it->resp.k = k; it->resp.refs = it->has_resp ? 1 : 0; it->resp.requestId = it->has_rid ? &it->rid : NULL; it->resp.status = it->has_status ? &it->status : NULL;
+	it->resp.k = k; it->resp.pdu = &it->pdu; it->resp.refs = it->has_resp ? 1 : 0; it->resp.requestId = it->has_rid ? &it->rid : NULL; it->resp.status = it->has_status ? &it->status : NULL;
 	it->resp.errorMsg = nondet_bool() ? &it->resp_msg : NULL;
 	it->pdu.response = it->has_resp ? &it->resp : NULL;
-	it->conf.k = k; it->conf.refs = it->has_conf ? 1 : 0; it->pdu.confResponse = it->has_conf ? &it->conf : NULL;
+	it->conf.k = k; it->conf.pdu = &it->pdu; it->conf.refs = it->has_conf ? 1 : 0; it->pdu.confResponse = it->has_conf ? &it->conf : NULL;
 	*t = &it->pdu;
 	return KSI_OK;
 }
-static void ad_pdu_free(struct ad_pdu *m) {
+static void ad_pdu_free(ad_pdu_t *m) {
 	if (m == NULL) return;
-	g_ad.it[m->k].pdu_free++;
+	m->freed++;
 	if (m->error != NULL) m->error->refs--;
 	if (m->response != NULL) m->response->refs--;
 	if (m->confResponse != NULL) m->confResponse->refs--;
 }
-static int ad_verify(const struct ad_pdu *m, const char *pass) {
-	struct ad_item *it; int r;
+static int ad_verify(const ad_pdu_t *cm, const char *pass) {
+	ad_pdu_t *m = (ad_pdu_t *)cm; int r;
 	if (m == NULL) return ad_fail(KSI_INVALID_ARGUMENT);
-	it = &g_ad.it[m->k];
-	it->verify_calls++; it->verify_key = pass;
+	m->verify_calls++; m->verify_key = pass;
 	r = nondet_int();
 	if (r == KSI_OK && (pass == NULL || m->header == NULL || m->hmac == NULL)) r = KSI_INVALID_FORMAT;   /* contract of C06.*_pdu_verify */
-	it->verify_res = r;
-	if (r == KSI_OK) it->verified = 1;
+	m->verify_res = r;
+	if (r == KSI_OK) m->verified = 1;
 	return ad_fail(r);
 }
-static int ad_setError(struct ad_pdu *m, KSI_ErrorPdu *e) {
+static int ad_setError(ad_pdu_t *m, KSI_ErrorPdu *e) {
 	if (m == NULL) return ad_fail(KSI_INVALID_ARGUMENT);
 	if (nondet_bool()) return ad_fail(KSI_INVALID_ARGUMENT);          /* (the generated setter cannot fail; kept general) */
-	if (e == NULL && m->error != NULL) { g_ad.it[m->k].detach_calls++; g_ad.err_seen = 1; g_ad.last_err = m->k; }
+	if (e == NULL && m->error != NULL) { m->detach_calls++; g_ad.err_seen = 1; g_ad.last_err = m->k; }
 	m->error = e; return KSI_OK;
 }
-#define AD_PDU(P) \
-int P##_parse(KSI_CTX *ctx, const unsigned char *raw, size_t len, P **t) { return ad_parse(ctx, raw, len, (void **)t); } \
-void P##_free(P *t) { ad_pdu_free(t != NULL ? &t->m : NULL); } \
-int P##_verify(const P *t, const char *pass) { return ad_verify(t != NULL ? &t->m : NULL, pass); } \
-int P##_getError(const P *t, KSI_ErrorPdu **e) { if (t == NULL || e == NULL) return ad_fail(KSI_INVALID_ARGUMENT); if (nondet_bool()) return ad_fail(KSI_INVALID_ARGUMENT); *e = t->m.error; return KSI_OK; } \
-int P##_setError(P *t, KSI_ErrorPdu *e) { return ad_setError(t != NULL ? &t->m : NULL, e); } \
-int P##_getConfResponse(const P *t, KSI_Config **c) { if (t == NULL || c == NULL) return ad_fail(KSI_INVALID_ARGUMENT); if (nondet_bool()) return ad_fail(KSI_INVALID_ARGUMENT); *c = t->m.confResponse; return KSI_OK; }
-AD_PDU(KSI_AggregationPdu)
-AD_PDU(KSI_ExtendPdu)
-int KSI_AggregationPdu_getResponse(const KSI_AggregationPdu *t, KSI_AggregationResp **r) { if (t == NULL || r == NULL) return ad_fail(KSI_INVALID_ARGUMENT); if (nondet_bool()) return ad_fail(KSI_INVALID_ARGUMENT); *r = (KSI_AggregationResp *)t->m.response; return KSI_OK; }
-int KSI_ExtendPdu_getResponse(const KSI_ExtendPdu *t, KSI_ExtendResp **r) { if (t == NULL || r == NULL) return ad_fail(KSI_INVALID_ARGUMENT); if (nondet_bool()) return ad_fail(KSI_INVALID_ARGUMENT); *r = (KSI_ExtendResp *)t->m.response; return KSI_OK; }
+#define AD_PDU(P, R) \
+int P##_parse(KSI_CTX *ctx, const unsigned char *raw, size_t len, P **t) { return ad_parse(ctx, raw, len, t); } \
+void P##_free(P *t) { ad_pdu_free(t); } \
+int P##_verify(const P *t, const char *pass) { return ad_verify(t, pass); } \
+int P##_getError(const P *t, KSI_ErrorPdu **e) { if (t == NULL || e == NULL) return ad_fail(KSI_INVALID_ARGUMENT); if (nondet_bool()) return ad_fail(KSI_INVALID_ARGUMENT); *e = t->error; return KSI_OK; } \
+int P##_setError(P *t, KSI_ErrorPdu *e) { return ad_setError(t, e); } \
+int P##_getConfResponse(const P *t, KSI_Config **c) { if (t == NULL || c == NULL) return ad_fail(KSI_INVALID_ARGUMENT); if (nondet_bool()) return ad_fail(KSI_INVALID_ARGUMENT); *c = t->confResponse; return KSI_OK; } \
+int P##_getResponse(const P *t, R **r) { if (t == NULL || r == NULL) return ad_fail(KSI_INVALID_ARGUMENT); if (nondet_bool()) return ad_fail(KSI_INVALID_ARGUMENT); *r = t->response; return KSI_OK; }
+#ifdef AD_EXT
+AD_PDU(KSI_ExtendPdu, KSI_ExtendResp)
+#else
+AD_PDU(KSI_AggregationPdu, KSI_AggregationResp)
+#endif
 
 void KSI_ErrorPdu_free(KSI_ErrorPdu *e) { if (e != NULL) e->refs--; }
 int KSI_ErrorPdu_getErrorMessage(const KSI_ErrorPdu *o, KSI_Utf8String **v) { if (o == NULL || v == NULL) return KSI_INVALID_ARGUMENT; *v = o->errorMsg; return KSI_OK; }
@@ -200,54 +214,62 @@ static int ad_conv(const KSI_Integer *st) {
 	r = __CPROVER_uninterpreted_ad_conv(st->value);
 	return r == KSI_OK ? KSI_SERVICE_UNKNOWN_ERROR : r;
 }
-int KSI_convertAggregatorStatusCode(const KSI_Integer *st) { return ad_conv(st); }
+#ifdef AD_EXT
 int KSI_convertExtenderStatusCode(const KSI_Integer *st) { return ad_conv(st); }
+#else
+int KSI_convertAggregatorStatusCode(const KSI_Integer *st) { return ad_conv(st); }
+#endif
 
 /* ---- the response payload as handleResponse sees it ---- */
-static int ad_getRequestId(const struct ad_resp *r, KSI_Integer **id) {
+static int ad_getRequestId(const ad_resp_t *cr, KSI_Integer **id) {
+	ad_resp_t *r = (ad_resp_t *)cr;
 	if (r == NULL || id == NULL) return ad_fail(KSI_INVALID_ARGUMENT);
-	__CPROVER_assert(ad_authentic(r->k), "C06: a response payload reaches handleResponse only from an AUTHENTIC pdu");
-	g_ad.it[r->k].handled++;
+	__CPROVER_assert(ad_pdu_authentic(r->pdu), "C06: a response payload reaches handleResponse only from an AUTHENTIC pdu");
+	r->handled++;
 	if (nondet_bool()) return ad_fail(KSI_INVALID_ARGUMENT);
 	*id = r->requestId; return KSI_OK;
 }
-static int ad_verifyWithRequest(const struct ad_resp *r, const void *req) {
+static int ad_verifyWithRequest(const ad_resp_t *cr, const void *req) {
+	ad_resp_t *r = (ad_resp_t *)cr;
 	if (r == NULL) return ad_fail(KSI_INVALID_ARGUMENT);
-	g_ad.it[r->k].vwr_calls++; g_ad.it[r->k].vwr_req = req;
-	return g_ad.it[r->k].vwr_res = ad_status();
+	r->vwr_calls++; r->vwr_req = req;
+	return r->vwr_res = ad_status();
 }
-static void *ad_resp_ref(struct ad_resp *r) {
+static ad_resp_t *ad_resp_ref(ad_resp_t *r) {
 	if (r != NULL) {
-		__CPROVER_assert(ad_authentic(r->k), "C06: a response is stored into a handle only from an AUTHENTIC pdu");
-		r->refs++; g_ad.it[r->k].resp_delivered++;
+		__CPROVER_assert(ad_pdu_authentic(r->pdu), "C06: a response is stored into a handle only from an AUTHENTIC pdu");
+		r->refs++; r->delivered++;
 	}
 	return r;
 }
-static void ad_resp_free(struct ad_resp *r) { if (r != NULL) { if (r->k < 0) g_ad.oldresp_free++; else r->refs--; } }
+static void ad_resp_free(ad_resp_t *r) { if (r != NULL) { if (r->k < 0) g_ad.oldresp_free++; else r->refs--; } }
 #define AD_RESP(R, Q) \
-int R##_getRequestId(const R *r, KSI_Integer **id) { return ad_getRequestId(r != NULL ? &r->m : NULL, id); } \
-int R##_verifyWithRequest(const R *r, const Q *q) { return ad_verifyWithRequest(r != NULL ? &r->m : NULL, q); } \
-int R##_getStatus(const R *r, KSI_Integer **s) { if (r == NULL || s == NULL) return ad_fail(KSI_INVALID_ARGUMENT); if (nondet_bool()) return ad_fail(KSI_INVALID_ARGUMENT); *s = r->m.status; return KSI_OK; } \
-int R##_getErrorMsg(const R *r, KSI_Utf8String **s) { if (r == NULL || s == NULL) return KSI_INVALID_ARGUMENT; *s = r->m.errorMsg; return KSI_OK; } \
-R *R##_ref(R *r) { return (R *)ad_resp_ref(r != NULL ? &r->m : NULL); } \
-void R##_free(R *r) { ad_resp_free(r != NULL ? &r->m : NULL); }
-AD_RESP(KSI_AggregationResp, KSI_AggregationReq)
+int R##_getRequestId(const R *r, KSI_Integer **id) { return ad_getRequestId(r, id); } \
+int R##_verifyWithRequest(const R *r, const Q *q) { return ad_verifyWithRequest(r, q); } \
+int R##_getStatus(const R *r, KSI_Integer **s) { if (r == NULL || s == NULL) return ad_fail(KSI_INVALID_ARGUMENT); if (nondet_bool()) return ad_fail(KSI_INVALID_ARGUMENT); *s = r->status; return KSI_OK; } \
+int R##_getErrorMsg(const R *r, KSI_Utf8String **s) { if (r == NULL || s == NULL) return KSI_INVALID_ARGUMENT; *s = r->errorMsg; return KSI_OK; } \
+R *R##_ref(R *r) { return ad_resp_ref(r); } \
+void R##_free(R *r) { ad_resp_free(r); }
+#ifdef AD_EXT
 AD_RESP(KSI_ExtendResp, KSI_ExtendReq)
+#else
+AD_RESP(KSI_AggregationResp, KSI_AggregationReq)
+#endif
 void KSI_AggregationReq_free(KSI_AggregationReq *r) { }
 void KSI_ExtendReq_free(KSI_ExtendReq *r) { }
 
 /* ---- configuration ---- */
 KSI_Config *KSI_Config_ref(KSI_Config *c) {
 	if (c != NULL) {
-		__CPROVER_assert(ad_authentic(c->k), "C06: a configuration is stored into a handle only from an AUTHENTIC pdu");
-		c->refs++; if (c->k >= 0 && c->k < AD_MAXQ) g_ad.it[c->k].conf_delivered++;
+		__CPROVER_assert(ad_pdu_authentic(c->pdu), "C06: a configuration is stored into a handle only from an AUTHENTIC pdu");
+		c->refs++; c->delivered++;
 	}
 	return c;
 }
-void KSI_Config_free(KSI_Config *c) { if (c != NULL) { if (c == &g_ad_oldconf) g_ad.oldconf_free++; else c->refs--; } }
+void KSI_Config_free(KSI_Config *c) { if (c != NULL) { if (c->k < 0) g_ad.oldconf_free++; else c->refs--; } }
 static int ad_cb(KSI_Config *c) {
-	__CPROVER_assert(c != NULL && ad_authentic(c->k), "C06: the configuration call-back gets a configuration only from an AUTHENTIC pdu");
-	if (c != NULL && c->k >= 0 && c->k < AD_MAXQ) { g_ad.it[c->k].cb_calls++; __CPROVER_assert(c == &g_ad.it[c->k].conf, "the call-back gets the configuration of the verified pdu itself"); }
+	__CPROVER_assert(c != NULL && ad_pdu_authentic(c->pdu) && c == c->pdu->confResponse, "C06: the configuration call-back gets a configuration only from an AUTHENTIC pdu (its own configuration element)");
+	if (c != NULL) c->cb_calls++;
 	return g_ad.cb_res = ad_status();
 }
 int ad_cb_client(KSI_CTX *ctx, KSI_Config *c) { g_ad.cb_client = 1; return ad_cb(c); }      /* KSI_ASYNC_OPT_PUSH_CONF_CALLBACK of the client */
